@@ -334,17 +334,17 @@ func (sc *scenario) runZeroRTT() (out *outcome) {
 }
 
 type zres struct {
-	early    bool
-	resumed  bool
-	write    string
-	hs       string
-	after    string
-	next     string
-	conns    int
-	nPayload int
-	nResend  int
-	nOther   int
-	replayed int // number of server connections whose application read the 0-RTT payload
+	early     bool
+	resumed   bool
+	write     string
+	hs        string
+	after     string
+	next      string
+	conns     int
+	nPayload  int
+	nResend   int
+	nOther    int
+	replayed  int // number of server connections whose application read the 0-RTT payload
 	left0     int
 	leftBytes int64
 }
